@@ -33,6 +33,7 @@ def decorate(case, rng, f):
             r["act"] = ops
             continue
         did_unput = False
+        did_input = False
         if rng.chance(f.get("less", 0)):
             mode = rng.choice(["hash", "hash", "back", "abs"])
             arg = rng.rint(0, 3) if mode != "abs" else rng.rint(1, 4)
@@ -44,13 +45,16 @@ def decorate(case, rng, f):
         if rng.chance(f.get("input", 0)):
             ops.append(cond(rng, [("input", rng.rint(1, 4))], k()))
             uses.add("input")
+            did_input = True
         if rng.chance(f.get("unput", 0)):
             alpha = f.get("unput_alpha", b"ab01 \n")
             data = bytes(alpha[rng.below(len(alpha))] for _ in range(rng.rint(1, 5)))
             ops.append(cond(rng, [("unput", data)], k()))
             uses.add("unput")
             did_unput = True
-        if rng.chance(f.get("more", 0)) and not did_unput:
+        # yymore() after yyinput()/yyunput() in one action: whether the characters they
+        # moved belong to yytext is not documented -> not generated
+        if rng.chance(f.get("more", 0)) and not did_unput and not did_input:
             ops.append(cond(rng, [("more",)], k()))
             uses.add("more")
         if nsc > 1 and rng.chance(f.get("begin", 0)):
